@@ -65,16 +65,18 @@ specs = {
    mods=["Jwt.Props.C06"], files=["Jwt/Props/C06.lean"], gen=0,
    level="Lean theorems: rc=0 => two dots, first segment decodes+loads to JSON with a known string alg, second decodes+loads; decoder buffer accesses in bounds for every length and buffer content (C11 instance); termination by structural recursion. Memory safety/UB/leaks of the compiled code are witnessed by sanitizer runs over exhaustive short strings, grammar-derived near-valid tokens, random bytes and long inputs, under keyless/oct/RSA/EC/OKP checkers; verdicts compared with the model.",
    assume=["PARTIAL: memory safety, UB and leaks of compiled libjwt/jansson/OpenSSL are runtime facts witnessed by ASan/UBSan/LSan on the inputs explored, not proved"],
-   body='''    F.run_suites(ctx, model_ok, deep, [
+   body='''    import ecframe
+    ecframe.run(ctx, model_ok, deep)
+    F.run_suites(ctx, model_ok, deep, [
         ("token-bytes", S.token_bytes, S.falsify_accept,
          "all strings of length 1-4 (quick) / 1-5 (thorough) over {e . = A - 0x80}; 12x10x8 header/payload/signature part grid; random strings over a token alphabet and over all bytes; random edits of real tokens; 1k-64k inputs; x checkers {no key, oct, RSA, P-256, Ed25519}; independent well-formedness predicate as falsifier", False),
     ])'''),
  "c09": dict(doc="C09 -- key-strength floor (verification side): theorems + boundary-exhaustive strength suite.",
-   mods=["Jwt.Props.C09"], files=["Jwt/Props/C09.lean"], gen=1,
+   mods=["Jwt.Props.C09"], files=["Jwt/Props/C09.lean"], gen=2,
    level="Lean theorems for every bits:Nat: the gates pass exactly per the documented floor table; every primitive call made by verification satisfies it (trace); acceptance implies it; the gate is live at/above the floor; the same for signing (generate). Tied to the code by every oct length 1-160 x HS256/384/512 and every generated RSA/EC/OKP key x every public-key algorithm with oracle-signed tokens.",
    assume=[],
    body='''    extra = {"rsa1024": K.gen_key("rsa", 1024, ctx.scratch), "rsa2047": K.gen_key("rsa", 2047, ctx.scratch),
-             "rsa2041": K.gen_key("rsa", 2041, ctx.scratch), "p384": K.gen_key("ec", "P-384", ctx.scratch),
+             "rsa2041": K.gen_key("rsa", 2041, ctx.scratch), "rsa2050": K.gen_key("rsa", 2050, ctx.scratch), "p384": K.gen_key("ec", "P-384", ctx.scratch),
              "p521": K.gen_key("ec", "P-521", ctx.scratch), "k256": K.gen_key("ec", "secp256k1", ctx.scratch),
              "ed448": K.gen_key("okp", "ED448", ctx.scratch)}
     if ctx.tier == "thorough" or deep:
